@@ -24,6 +24,8 @@ sys.path.insert(0, VERIF)
 
 from sim import kernel  # noqa: E402
 
+MAX_REPORTED = 5
+
 PINNED_ENV = {
     'PYTHONHASHSEED': '0', 'OMP_NUM_THREADS': '1', 'MKL_NUM_THREADS': '1',
     'OPENBLAS_NUM_THREADS': '1', 'NUMBA_NUM_THREADS': '1', 'NUMEXPR_NUM_THREADS': '1',
@@ -258,7 +260,7 @@ def check(mod, tier, seed):
             by_sig.setdefault(v['signature'], []).append((i, rec.get('plan'), v))
 
     wall = time.time() - t_start
-    violations_out, known_hit = [], []
+    violations_out, known_hit, also_seen = [], [], []
     exit_code = 0
     for sig in sorted(by_sig):
         i, plan, vj = by_sig[sig][0]
@@ -268,8 +270,19 @@ def check(mod, tier, seed):
             print('KNOWN-FINDING: property=%s %s' % (mod.PROP, k['what']))
             known_hit.append({'signature': sig, 'what': k['what'], 'occurrences': len(by_sig[sig])})
             continue
+        if len(violations_out) >= MAX_REPORTED:
+            print('ALSO-SEEN property=%s signature=%s occurrences=%d (not minimised: more than %d distinct violations)' % (
+                mod.PROP, sig, len(by_sig[sig]), MAX_REPORTED))
+            also_seen.append({'signature': sig, 'occurrences': len(by_sig[sig]), 'message': v.message})
+            continue
         fail_plan = (v.detail or {}).get('plan') or plan
         small, execs = shrink(mod, fail_plan, sig)
+        try:
+            for v2 in mod.execute(small).violations:
+                if v2.signature == sig:
+                    v = v2
+        except BaseException:  # noqa
+            pass
         path = write_replay(mod.PROP, small, v, seed, note='minimised with %d executions from run %d' % (execs, i))
         got = replay_in_fresh_interpreter(mod.PROP, path)
         if got is None or sig not in got:
@@ -312,6 +325,7 @@ def check(mod, tier, seed):
             'components_stub': mod.COMPONENTS_STUB,
             'known_findings_hit': known_hit,
             'violations': violations_out,
+            'violations_also_seen': also_seen,
             'harness_errors': errors[:10],
             'repo': repo_path(),
         },
